@@ -101,6 +101,12 @@ func (p *inputlookupProcessor) Process(inpIqr *iqr.IQR) (*iqr.IQR, error) {
 		return nil, fmt.Errorf("inputlookupProcessor.Process: Only .csv and .csv.gz formats are currently supported")
 	}
 
+	// the name comes from the query text: it must be a plain file name inside
+	// the lookups directory
+	if filename != filepath.Base(filename) || strings.ContainsAny(filename, "/\\") || filename == ".." {
+		return nil, fmt.Errorf("inputlookupProcessor.Process: invalid lookup file name %v", filename)
+	}
+
 	filePath := filepath.Join(config.GetLookupPath(), filename)
 
 	fd, err := os.Open(filePath)
